@@ -28,7 +28,8 @@ def one(m):
             open(p, "w").write(s.replace(old, new))
         b = subprocess.run("go build . 2>&1 | tail -3; go test -vet=off -count=1 . 2>&1 | tail -3", shell=True, cwd=d, env=ENV, stdout=subprocess.PIPE, stderr=subprocess.STDOUT, text=True)
         res["suite"] = "passes" if ("ok  " in b.stdout and "FAIL" not in b.stdout) else "differs: " + (b.stdout.strip().splitlines() or ["?"])[-1][:120]
-        for pid in m["props"]:
+        only = [x for x in os.environ.get("SOUND_PROPS", "").split(",") if x]
+        for pid in [q for q in m["props"] if not only or q in only]:
             t0 = time.time()
             c = subprocess.run([os.path.join(ROOT, "check"), pid, "--tier", "quick"], cwd=ROOT, env=dict(ENV, VERIF_REPO=d), stdout=subprocess.PIPE, stderr=subprocess.STDOUT, text=True)
             msg = ""
@@ -60,7 +61,7 @@ def main():
             silent += okrc; alarms += not okrc
             lines.append(f"| {r['id']} | {pid} | {r['suite']} | {c['rc']} | {c['wall']} | {c['msg'].replace('|', '/')} |")
     lines.insert(2, f"silent {silent}, not silent {alarms}\n")
-    if not args:
+    if not args and not os.environ.get("SOUND_PROPS"):
         open(os.path.join(HERE, "RESULTS.md"), "w").write("\n".join(lines) + "\n")
     print("\n".join(lines))
 
